@@ -17,4 +17,7 @@ Definition check (c : case) : bool :=
 (* compact constructor used by the generated case files:
    invocation stamp, response stamp, caller index, operation, observed result *)
 Definition LC (i r : N) (c : nat) (o : op V) (res : result V) : lcall :=
-  {| inv := i; rsp := r; cop := (c, o); cres := res |}.
+  {| inv := i; rsp := r; cop := (c, true, o); cres := res |}.
+(* the same for a call made while the state directory was unreachable (a refused save) *)
+Definition LCf (i r : N) (c : nat) (o : op V) (res : result V) : lcall :=
+  {| inv := i; rsp := r; cop := (c, false, o); cres := res |}.
